@@ -175,6 +175,10 @@ class Engine:
         return Sym(TBool, And(vals) if is_and_ else Or(vals))
 
     def ev_BinOp(self, e, st):
+        hook = getattr(self.w, 'binop_hook', None)
+        if hook is not None:
+            hv = hook(self, e, st)
+            if hv is not None: return hv
         l = self.ev(e.left, st); r = self.ev(e.right, st)
         if l.t is TInt and r.t is TInt:
             if isinstance(e.op, ast.Add): return Sym(TInt, l.term + r.term)
@@ -246,6 +250,10 @@ class Engine:
 
     def ev_List(self, e, st):
         els = [self.ev(x, st) for x in e.elts]
+        if els and els[0].t in getattr(self.w, 'seq_literals', ()):
+            term = Unit(els[0].term)
+            for x in els[1:]: term = Concat(term, Unit(x.term))
+            return Sym(TSeq(els[0].t), term)
         if not els: raise Unsupported(f'empty list literal needs a declared type (line {e.lineno})')
         t = TBag(els[0].t); term = t.empty().term
         for x in els: term = Store(term, x.term, Select(term, x.term) + 1)
@@ -358,7 +366,7 @@ class Engine:
                 raise Unsupported(f'{n}() of {a.t}')
             if n in self.w.ctors: return self.w.ctors[n](self, e, st)
             if ('fn.' + n) in self.w.contracts:
-                args = [self.ev(a, st) for a in e.args]
+                args = [NONE_SYM if self.is_empty_literal(a) else self.ev(a, st) for a in e.args]
                 return self.apply_contract(self.w.contracts['fn.' + n], None, None, args, st, e.lineno)
             raise Unsupported(f'call of {n} (line {e.lineno})')
         if isinstance(f, ast.Attribute):
@@ -444,6 +452,8 @@ class Engine:
         if recv is not None: o[names[0]] = recv; rest = names[1:]
         else: rest = names
         for n, a in zip(rest, args): o[n] = a
+        for (n, t) in c.params:
+            if n in o and o[n].t is TNone and isinstance(t, (TSet, TBag, TSeq)): o[n] = t.empty()
         for (n, t) in c.params:
             if n in o and o[n].t != t and not (o[n].t is TNone):
                 if (o[n].t.name, t.name) in getattr(self.w, 'subtypes', ()):      # upcast between record types with the same fields
